@@ -162,6 +162,7 @@ func (h *H) reuseCorpus() {
 	h.reuseOne(find(ts, "FHDR"), []byte{1, 2, 3, 4, 2, 0, 0, 0xaa, 0xbb}, []byte{1, 2, 3, 4, 0, 0, 0})
 	h.reuseOne(find(ts, "MACPayload"), []byte{1, 2, 3, 4, 2, 0, 0, 0xaa, 0xbb, 7, 0xcc}, []byte{1, 2, 3, 4, 0, 0, 0})
 	h.reuseOne(find(ts, "MACCommand:up=true"), []byte{3, 7}, []byte{2})
+	h.reuseOne(find(ts, "MACPayload"), []byte{1, 2, 3, 4, 0, 0, 0}, []byte{1, 2, 3, 4, 2, 0, 0, 0xaa, 0xbb, 0}) // FPort 0 + FOpts, empty FRMPayload
 }
 
 func (h *H) reuse(mult int) {
